@@ -9,7 +9,7 @@ client boundary); the driver adds the checks on raised exceptions (totality).
 """
 from vdrive.core import fp
 from vmon import base, m_classdb
-from vuniv import gen, intuniv, words
+from vuniv import blobs, gen, intuniv, words
 
 PROPERTY = "C15"
 LEVEL = "exploration"
@@ -77,6 +77,11 @@ def gen_cases(tier, seed):
         coarse = intuniv.rng_for(seed, "C15/coarse", i).random() < 0.35
         pool = _pool(rng, compressed, coarse)
         mixed = compressed and not coarse and intuniv.rng_for(seed, "C15/mixed", i).random() < 0.5
+        brng = intuniv.rng_for(seed, "C15/blob", i)
+        blob = brng.random() < 0.15
+        if blob:
+            # classes whose byte form is an arbitrary byte string, zlib streams of each other included
+            pool, compressed, coarse, mixed = blobs.rand_pool(brng), True, False, False
         for d in pool:
             d["mixed"] = mixed  # compressed classes and atoms that opt out of compression in one database
             if mixed and d.get("right"):
@@ -105,7 +110,8 @@ def gen_cases(tier, seed):
                 ops.append(["add", j])
             else:
                 ops.append(["iter"])
-        yield {"id": i, "compressed": compressed, "coarse": coarse, "mixed": mixed, "pool": pool, "ops": ops}
+        yield {"id": i, "compressed": compressed, "coarse": coarse, "mixed": mixed, "blob": blob, "pool": pool,
+               "ops": ops}
 
 
 def run_case(case):
@@ -120,13 +126,19 @@ def run_case(case):
     if case.get("mixed"):
         ctype = words.WCM
         cx.count("c15.histories_with_mixed_compression")
+    if case.get("blob"):
+        ctype = blobs.Blob
+        cx.count("c15.histories_over_arbitrary_byte_forms")
     db = ClassDB(ctype)
     model = m_classdb.model_of(db)
     rng = intuniv.rng_for("c15run", case["id"])
     unknown_probes = 0
 
     def build(j):
-        return words.WC.from_descriptor(case["pool"][j])  # a fresh, equal instance every time
+        d = case["pool"][j]
+        if "blob" in d:
+            return blobs.Blob(bytes.fromhex(d["blob"]))
+        return words.WC.from_descriptor(d)  # a fresh, equal instance every time
 
     def pick_int(kind):
         n = len(model.classes)
